@@ -36,6 +36,35 @@ func corpus() []corpusEntry {
 			files: map[string]string{
 				"main.thrift": "include \"inc.thrift\"\nstruct S { 1: inc.Alias a }\n",
 				"inc.thrift":  "typedef i32 Base\ntypedef Base Alias\ntypedef Ping Pong\ntypedef Pong Ping\n"}},
+		// an error on the KEY type of a map must survive a value type that resolves; an
+		// unreferenced include is only looked at by the front end (no Go scope without -r)
+		{name: "undefined type as a map key in the main file", kind: 1, rule: idlmut.UndefinedType, strict: true, site: "map-key",
+			files: one("struct S { 1: map<Nope, string> m }\n")},
+		{name: "undefined type as a map key in an UNREFERENCED include", kind: 1, rule: idlmut.UndefinedType, strict: true, site: "map-key",
+			position: "unused-include", edited: "inc.thrift", depth: 1,
+			files: map[string]string{
+				"main.thrift": "include \"inc.thrift\"\nstruct S { 1: i32 a }\n",
+				"inc.thrift":  "struct T { 1: map<Nope, string> m }\n"}},
+		{name: "undefined type as a nested map key (typedef of list<map<..>>) in an unreferenced include at depth 2", kind: 1, rule: idlmut.UndefinedType, strict: true, site: "map-key/nested",
+			position: "unused-include", edited: "deep.thrift", depth: 2,
+			files: map[string]string{
+				"main.thrift": "include \"mid.thrift\"\nstruct S { 1: i32 a }\n",
+				"mid.thrift":  "include \"deep.thrift\"\nstruct M { 1: i32 a }\n",
+				"deep.thrift": "typedef list<map<inc.Nope, list<i64>>> TD\nservice Sv { map<Nope2, i32> f(1: map<Nope3, string> a) }\n"}},
+		{name: "undefined type as a map key in a REFERENCED include", kind: 1, rule: idlmut.UndefinedType, strict: true, site: "map-key",
+			position: "used-include", edited: "inc.thrift", depth: 1,
+			files: map[string]string{
+				"main.thrift": "include \"inc.thrift\"\nstruct S { 1: inc.Ok a }\n",
+				"inc.thrift":  "struct Ok { 1: i32 a }\nstruct T { 1: map<Nope, string> m }\n"}},
+		{name: "a constant used as a map key in the main file", kind: 1, rule: idlmut.NonTypeAsType, strict: true, site: "map-key",
+			files: one("const i32 MAX = 5\nstruct S { 1: map<MAX, string> m }\n")},
+		{name: "a service used as a map key in an argument, a constant as a set element inside a map value", kind: 1, rule: idlmut.NonTypeAsType, strict: true, site: "map-key/argument",
+			files: one("const i32 MAX = 5\nservice Base { void g() }\nservice Sv { void f(1: map<Base, string> a, 2: map<string, set<MAX>> b) }\n")},
+		{name: "a constant used as a map key in an UNREFERENCED include", kind: 1, rule: idlmut.NonTypeAsType, strict: true, site: "map-key",
+			position: "unused-include", edited: "inc.thrift", depth: 1,
+			files: map[string]string{
+				"main.thrift": "include \"inc.thrift\"\nstruct S { 1: i32 a }\n",
+				"inc.thrift":  "const i32 MAX = 5\ntypedef map<MAX, string> TD\n"}},
 		{name: "typedef T T", kind: 1, rule: idlmut.TypedefCycle, strict: true, site: "typedef/len1",
 			files: one("typedef T T\n")},
 		{name: "typedef 3-cycle with a chain into it used by a struct", kind: 1, rule: idlmut.TypedefCycle, strict: true, site: "typedef/len3+chain",
